@@ -235,6 +235,9 @@ func (r *RectClip64) executeInternal(path Path64) {
 		prev, ok = getLocation(r.rect, path[i])
 		for i >= 0 && !ok {
 			i--
+			if i < 0 {
+				break
+			}
 			prev, ok = getLocation(r.rect, path[i])
 		}
 		if i < 0 {
